@@ -3,7 +3,7 @@
    and nothing else. *)
 From AK Require Import Base.Prelude Base.Sx Bytes.Text Bytes.FabHeader Bytes.BinFile
   Reader.Select Reader.BoxRead Reader.Level Plotfile.TextHeader Taste.Taste Writers.Colander Writers.Combine Writers.Chef Writers.Chk2plt
-  Array.Paint Mandoline.Plate Mandoline.Slice3D Whip.Whip Pestle.Pestle Point.PointQuery Menu.Menu.
+  Array.Paint Mandoline.Plate Mandoline.Slice3D Whip.Whip Pestle.Pestle Point.PointQuery Menu.Menu Paths.Posix.
 
 Definition as_Zs := as_list as_Z.
 Definition as_optZ := as_opt as_Z.
@@ -448,6 +448,20 @@ Definition e_menu (s : sx) : sx :=
 Definition e_minuterie (s : sx) : sx :=
   req (as_text s) (fun t => of_result SB (minuterie t)).
 
+(* ---- C13: output paths ---- *)
+Definition e_path (s : sx) : sx :=
+  match s with
+  | SL [SZ 0; SB p] => ok (SB (chef_default p))
+  | SL [SZ 1; SB p] => ok (SB (marinate_default p))
+  | SL [SZ 2; SB p1; SB p2] => ok (SB (combine_default p1 p2))
+  | SL [SZ 3; SB p] => ok (SB (chk2plt_default p))
+  | SL [SZ 4; SB p; SB n] => ok (SB (mandoline_default p n))
+  | SL [SZ 5; SB o; SB l; SB f] => ok (SB (target o l f))
+  | SL [SZ 6; SB a; SB b] => ok (of_bool (inside a b))
+  | SL [SZ 7; SB p] => ok (SB (normpath p))
+  | _ => bad_request
+  end.
+
 Definition entries : list (string * (sx -> sx)) :=
   [ ("getitem", e_getitem);
     ("iter_all", e_iter_all);
@@ -474,7 +488,8 @@ Definition entries : list (string * (sx -> sx)) :=
     ("chk2plt_level", e_chk2plt_level);
     ("slice3d", e_slice3d);
     ("menu", e_menu);
-    ("minuterie", e_minuterie)
+    ("minuterie", e_minuterie);
+    ("path", e_path)
   ]%string.
 
 Fixpoint find_entry (name : string) (l : list (string * (sx -> sx))) : option (sx -> sx) :=
